@@ -1,6 +1,7 @@
 from ..core import CallbackFunc, Machine, State
 from .diagrams import GraphMachine, NestedGraphTransition, HierarchicalGraphMachine
 from .locking import LockedMachine
+from .markup import HierarchicalMarkupMachine
 from .nesting import HierarchicalMachine, NestedEvent
 from typing import Any, Type, Dict, Tuple, Callable, Union
 
@@ -41,7 +42,7 @@ class LockedGraphMachine(GraphMachine, LockedMachine):  # type: ignore
     @staticmethod
     def format_references(func: CallbackFunc) -> str: ...
 
-class LockedHierarchicalGraphMachine(GraphMachine, LockedHierarchicalMachine):  # type: ignore
+class LockedHierarchicalGraphMachine(GraphMachine, HierarchicalMarkupMachine, LockedHierarchicalMachine):  # type: ignore
     transition_cls: Type[NestedGraphTransition]
     event_cls: Type[NestedEvent]
     @staticmethod
@@ -51,7 +52,7 @@ class AsyncGraphMachine(GraphMachine, AsyncMachine):  # type: ignore
     # AsyncTransition already considers graph models when necessary
     transition_cls: Type[AsyncTransition]  # type: ignore
 
-class HierarchicalAsyncGraphMachine(GraphMachine, HierarchicalAsyncMachine):  # type: ignore
+class HierarchicalAsyncGraphMachine(GraphMachine, HierarchicalMarkupMachine, HierarchicalAsyncMachine):  # type: ignore
     # AsyncTransition already considers graph models when necessary
     transition_cls: Type[NestedAsyncTransition]  # type: ignore
 
